@@ -44,10 +44,12 @@ def param_kind_value(kind, term_int=None, term_val=None):
 
 
 class Interface:
+    TABLES = {}
+
     def __init__(self, models):
         self.models = models
         self.src = models.src
-        self.tables = {}
+        self.tables = dict(Interface.TABLES)
         self.singletons = {}
         self.extra_globals = {}
 
@@ -287,6 +289,18 @@ class Interface:
                 has = self.hhas(st, o.addr, kt)
             val = t.ite(has, self.hget(st, o.addr, kt), eng.to_dyn(d, st))
             return [(st, VDyn(val))]
+        if name == 'items' and not args:
+            prelude.declare_fun('cont_len', ['Keys'], t.INT)
+            prelude.declare_fun('cont_key', ['Keys', t.INT], t.STR)
+            H, D = self.H(st)
+            f, d = t.T('Fields', 'select', (H, o.addr)), t.T('Keys', 'select', (D, o.addr))
+            n = t.app('cont_len', t.INT, d)
+            st.assume(t.ge(n, t.ZERO))
+
+            def at(i):
+                k = t.app('cont_key', t.STR, d, i)
+                return VTuple([VStr(k), VDyn(t.T(t.VAL, 'select', (f, k)))])
+            return [(st, VIter('seq', n=n, at=at))]
         raise OutOfReach('Container.%s' % name)
 
     # Dyn values that are container references
@@ -301,8 +315,7 @@ class Interface:
             out = []
             if a is not None:
                 if bytes_side:
-                    recv = VBytes(t.app('barr', t.ARR, v.t), t.app('boff', t.INT, v.t), t.app('blen', t.INT, v.t))
-                    a.assume(t.ge(recv.len, t.ZERO))
+                    recv = eng.dyn_bytes(v, a)
                 else:
                     recv = VStr(t.app('sval', t.STR, v.t))
                 out.append((a, VFunc(attr, bound=recv, model=('model', lambda m, e, ar, kw, s, n, _r=recv, _a=attr: e.call_method(_r, _a, ar, kw, s, n)))))
@@ -329,8 +342,7 @@ class Interface:
         if rest is not None:
             b, rest2 = eng.fork(rest, isb)
             if b is not None:
-                bv = VBytes(t.app('barr', t.ARR, v.t), t.app('boff', t.INT, v.t), t.app('blen', t.INT, v.t))
-                b.assume(t.ge(bv.len, t.ZERO))
+                bv = eng.dyn_bytes(v, b)
                 out.extend(self.models.index(eng, bv, key, b))
             if rest2 is not None:
                 r2 = rest2.clone()
@@ -377,8 +389,7 @@ class Interface:
         x, y = eng.fork(st, isb)
         out = []
         if x is not None:
-            bv = VBytes(t.app('barr', t.ARR, b.t), t.app('boff', t.INT, b.t), t.app('blen', t.INT, b.t))
-            x.assume(t.ge(bv.len, t.ZERO))
+            bv = eng.dyn_bytes(b, x)
             out.extend(self.models.slice(eng, bv, lo, hi, step, x))
         if y is not None:
             y2 = y.clone()
@@ -411,7 +422,7 @@ class Interface:
         return out
 
     # ================================================================= parameters (E5)
-    def param_const(self, eng, p, st):
+    def _param_const(self, eng, p, st):
         if p.const is None:
             if p.pkind == 'int':
                 p.const = VInt(t.var('const_%s' % p.name, t.INT))
@@ -473,7 +484,30 @@ class Interface:
         if p.pkind == 'str':
             st.assume(t.app('(_ is VStr)', t.BOOL, v))
             return VDyn(v)
+        if p.pkind == 'hashable':
+            st.assume(self.hashable(eng, VDyn(v), st))
+            return VDyn(v)
+        self.assume_param_domain(eng, p, v, st)
         return VDyn(v)
+
+    def assume_param_domain(self, eng, p, v, st):
+        """value domains of validly parameterised constructs (documented parameter types)"""
+        if p.pkind == 'xorpad':
+            # ProcessXor: 'integer or bytes'; an integer key is a byte value
+            st.assume(t.implies(t.app('isint', t.BOOL, v), t.and_(t.le(t.ZERO, t.app('toint', t.INT, v)), t.lt(t.app('toint', t.INT, v), I(256)))))
+        if p.pkind == 'restreamdata':
+            prelude.declare_fun('is_io_BytesIO', [t.VAL], t.BOOL)
+            prelude.declare_fun('is_Construct', [t.VAL], t.BOOL)
+            st.assume(t.or_(t.app('(_ is VBytes)', t.BOOL, v), t.and_(t.app('(_ is VOpq)', t.BOOL, v), t.app('is_io_BytesIO', t.BOOL, v)),
+                            t.and_(t.app('(_ is VOpq)', t.BOOL, v), t.app('is_Construct', t.BOOL, v))))
+
+    def param_const(self, eng, p, st):
+        c = self._param_const(eng, p, st)
+        if p.pkind == 'hashable':
+            st.assume(self.hashable(eng, c, st))
+        if isinstance(c, VDyn):
+            self.assume_param_domain(eng, p, c.t, st)
+        return c
 
     def eval_param(self, eng, param, ctx, st):
         """model of construct.core:evaluate(param, context)"""
@@ -594,7 +628,11 @@ class Interface:
         d = t.const_arr(t.FALSE, 'Keys')
         fields = fresh('emptyfields', 'Fields')
         if args:
-            if len(args) == 1 and isinstance(args[0], VRef) and isinstance(st.get(args[0]), ODict):
+            if len(args) == 1 and isinstance(args[0], VRef) and isinstance(st.get(args[0]), ODict) and st.get(args[0]).items is None:
+                # a dict with computed keys: the new container holds some entries (not tracked: it is a result object)
+                fields = fresh('somefields', 'Fields')
+                d = fresh('somekeys', 'Keys')
+            elif len(args) == 1 and isinstance(args[0], VRef) and isinstance(st.get(args[0]), ODict):
                 for k, v in st.get(args[0]).items.items():
                     if k[0] != 'str':
                         raise OutOfReach('Container from dict with non-string key')
@@ -656,15 +694,24 @@ class Interface:
         inr = t.and_(t.le(t.ZERO, i), t.lt(i, n))
         if not (eb.len.op == 'int'):
             eng.emit(st, '%s/join-chunks-have-length-%d' % (eng.fnname, L), t.forall([i], t.implies(inr, t.eq(eb.len, I(L)))), kind='side')
+        out = []
+        i0 = fresh('badchunk', t.INT)
+        for cond, exc in list(getattr(sv, 'fails', [])):
+            bst = st.clone()
+            bst.assume(t.and_(t.le(t.ZERO, i0), t.lt(i0, n)))
+            bst.assume(t.substitute(cond, {i.args[0]: i0}))
+            if not bst.infeasible():
+                out.append((bst, Raised(exc)))
         r = fresh('join', t.ARR)
         q = t.var('q!', t.INT)
         total = t.mul(I(L), t.imax(n, t.ZERO))
         # r[q] = chunk_(q div L)[q mod L]
         elem = t.substitute(eb.at(t.pymod(q, I(L))), {i.args[0]: t.pyfloordiv(q, I(L))})
-        facts = [t.substitute(f, {i.args[0]: t.pyfloordiv(q, I(L))}) for f in getattr(sv, 'extra_facts', [])]
+        inr_s = {x.smt() for x in inr.args} | {inr.smt()}
+        facts = [t.substitute(f, {i.args[0]: t.pyfloordiv(q, I(L))}) for f in getattr(sv, 'extra_facts', []) if f.smt() not in inr_s]
         st.assume(t.forall([q], t.implies(t.and_(t.le(t.ZERO, q), t.lt(q, total)), t.and_(t.eq(t.select(r, q), elem), *facts)),
                            pats=[[t.select(r, q)]]))
-        return [(st, VBytes(r, t.ZERO, total))]
+        return [(st, VBytes(r, t.ZERO, total))] + out
 
     def guess_const_len(self, ln):
         if ln.op == 'int':
